@@ -14,7 +14,7 @@ RULE = ("every library shorthand with >= 3 notes x every root (letter + 0..2 sha
         "Hypothesis 4..9-note inputs (random names; shorthand chord + extra note; two shorthand chords concatenated, "
         "truncated, rotated) x no_inversions x no_polychords; root-position polychords X|Y of two shorthand chords. "
         "Non-trivial: rotation k >= 1, or >= 5 notes, or an input whose answer list is non-empty."
-        ' Also: the no_inversions forms are asked before the plain question; all seven notes of every key stacked in thirds from every degree in every rotation (and their six-note prefixes) for the never-raises / same-length clauses.')
+        ' Also: the no_inversions forms are asked before the plain question; all seven notes of every key stacked in thirds from every degree in every rotation (and their six-note prefixes) for the never-raises / same-length clauses; invert / first_ / second_ / third_inversion give the same rotations as plain list slicing.')
 ASSUMPTIONS = [
     "the chord to recognise is built with from_shorthand itself (round-trip oracle); long names are compared with an "
     "own pinned copy of the shorthand-meaning table and own ordinals",
@@ -79,6 +79,13 @@ def check_rotation(ctx, case):
         return ctx.note_case(False, ["size<3"])
     k %= len(c)
     rot = c[k:] + c[:k]
+    # the library's own inversion helpers produce exactly these rotations (for chords of every size)
+    for hname, turns in (("invert", 1), ("first_inversion", 1), ("second_inversion", 2), ("third_inversion", 3)):
+        if turns % len(c) != k:
+            continue
+        h = ctx.ok("inversion-helper/" + hname, getattr(chords, hname), list(c))
+        if not failed(h):
+            ctx.check(h == rot, "inversion-helper/" + hname, lambda: "%s(%r) -> %r, rotation %d is %r" % (hname, c, h, k, rot))
     # the same notes asked with other flags first: the plain question afterwards must still get the full answer
     ctx.ok("determine/no_inversions", chords.determine, list(rot), True, True)
     ctx.ok("determine/no_inversions", chords.determine, list(rot), False, True, True)
